@@ -3,7 +3,12 @@
 // attached — or a SimpleCalo as the collector's callback (calo=1).
 //
 //   run prob=simple|mock slots=N streams=K prims=N seed=S assign=<s0,s1,...> mode=threads|serial
-//       calo=0|1 sched=<seed>
+//       calo=0|1 sched=<seed> cut=<e>,<e>,...
+//     cut : the listed events are stopped by a step limit at the FIRST iteration after which no
+//           track is alive while primaries are still queued (more primaries than slots), and
+//           the stream's state is reset (CoreState::reset, as a transporter does after an
+//           aborted event); the iterations done so far are reported (cut=1 q=<queued>).  An
+//           event that never reaches such an iteration runs to completion (cut=0).
 //     sched != 0 : schedule perturbation — every thread draws from its own SplitMix64
 //                  (seeded by sched and its stream id) and yields / sleeps 0-200 us before it
 //                  constructs its Stepper, before every step and inside the step (a user_pre
@@ -40,6 +45,8 @@ namespace
 {
 struct EventOut
 {
+    bool cut = false;
+    size_type cut_queued = 0;
     size_type steps = 0;
     std::uint64_t hash = 0, res = 0;
     bool ok = false;
@@ -152,6 +159,25 @@ void run(std::map<std::string, std::string> const& kv)
             p = q + 1;
         }
     }
+    std::vector<bool> cutset(assign.size(), false);
+    {
+        std::string a = h3::kv_str(kv, "cut", "");
+        size_t p = 0;
+        while (!a.empty() && p <= a.size())
+        {
+            size_t q = a.find(',', p);
+            if (q == std::string::npos)
+                q = a.size();
+            unsigned long v;
+            if (!h3::parse_dec(a.substr(p, q - p), &v) || v >= assign.size())
+            {
+                std::cout << "bad-op\n";
+                return;
+            }
+            cutset[v] = true;
+            p = q + 1;
+        }
+    }
     if (K < 1 || K > 32 || slots < 1 || slots > 256 || assign.empty() || assign.size() > 256)
     {
         std::cout << "bad-op\n";
@@ -235,11 +261,22 @@ void run(std::map<std::string, std::string> const& kv)
                 perturb(s);
                 StepperResult r = step(make_span(primaries));
                 add(r);
-                while (r && loops < maxloops)
+                auto at_cut = [&] { return cutset[e] && r.alive == 0 && r.queued > 0; };
+                while (r && loops < maxloops && !at_cut())
                 {
                     perturb(s);
                     r = step();
                     add(r);
+                }
+                if (r && at_cut())
+                {
+                    // step limit hit: drop the rest of the event and reset the stream's state
+                    out.cut = true;
+                    out.cut_queued = r.queued;
+                    auto& st = dynamic_cast<CoreState<MemSpace::host>&>(
+                        const_cast<CoreStateInterface&>(step.state()));
+                    st.reset();
+                    r = StepperResult{};
                 }
                 out.res = rh;
                 if (rec)
@@ -292,7 +329,8 @@ void run(std::map<std::string, std::string> const& kv)
             continue;
         }
         std::cout << "event id=" << e << " steps=" << o.steps << " hash=" << vh::hex(o.hash, 16)
-                  << " res=" << vh::hex(o.res, 16) << "\n";
+                  << " res=" << vh::hex(o.res, 16) << " cut=" << (o.cut ? 1 : 0)
+                  << " q=" << o.cut_queued << "\n";
     }
     std::cout << "totals adiag=" << vh::hex(hash_map(ad->calc_actions_map()), 16)
               << " sdiag=" << vh::hex(hash_counts(sd->calc_steps()), 16) << " calo=";
